@@ -22,6 +22,8 @@ pub enum Case {
     Totality { headers: Vec<(String, String)> },
     HttpStatus { status: u16, trailer_status: Option<i32>, empty_data: bool },
     H2Reason { reason: u32, how: u8 },
+    /// a Status buried `depth` levels deep in an error source chain, recovered by Status::from_error / try_from_error
+    FromError { code: i32, message: String, details: Blob, md: Vec<MdEntry>, depth: u8 },
     /// HTTP status without grpc-status, seen through a generated client over the mock transport
     HttpStatusClient { status: u16, streaming: bool, body_bytes: bool },
 }
@@ -112,8 +114,9 @@ pub fn strategy() -> BoxedStrategy<Case> {
     let http = (100u16..=599, proptest::option::weighted(0.4, 0i32..=16), any::<bool>())
         .prop_map(|(status, trailer_status, empty_data)| Case::HttpStatus { status, trailer_status, empty_data });
     let h2 = (prop_oneof![4 => 0u32..=13, 1 => 14u32..=300, 1 => any::<u32>()], 0u8..4).prop_map(|(reason, how)| Case::H2Reason { reason, how });
+    let fromerr = (0i32..=16, gen::unicode_string(12), small_bytes(20), md::entries(4, true, true), 0u8..4).prop_map(|(code, message, details, md, depth)| Case::FromError { code, message, details, md, depth });
     let httpc = (100u16..=599, any::<bool>(), any::<bool>()).prop_map(|(status, streaming, body_bytes)| Case::HttpStatusClient { status, streaming, body_bytes });
-    prop_oneof![10 => rt, 10 => tot, 2 => http, 1 => h2, 1 => httpc].boxed()
+    prop_oneof![10 => rt, 10 => tot, 2 => http, 1 => h2, 1 => httpc, 2 => fromerr].boxed()
 }
 
 fn code_of(i: i32) -> Code {
@@ -303,8 +306,17 @@ fn run_totality(raw: &[(String, String)], o: &mut Outcome) -> Result<(), Failure
             ensure!(got.details().is_empty(), "C04/details-invented", "details present without header");
         }
     }
-    // metadata never contains the three status headers
+    // whatever happens to the status fields, the peer's other headers stay available as metadata
     let mdh = got.metadata().clone().into_headers();
+    for (k, _) in h.iter() {
+        let k = k.as_str();
+        if k == "grpc-status" || k == "grpc-message" || k == "grpc-status-details-bin" {
+            continue;
+        }
+        let want = h.get_all(k).iter().count();
+        let have = mdh.get_all(k).iter().count();
+        ensure!(have == want, if undecodable { "C04/metadata-lost-with-undecodable-field" } else { "C04/metadata-lost-on-read" }, "header {k:?}: {have} of {want} values kept in the status metadata");
+    }
     for k in ["grpc-status", "grpc-message", "grpc-status-details-bin"] {
         ensure!(!mdh.contains_key(k), "C04/status-header-in-metadata", "{k} left in status metadata");
     }
@@ -399,6 +411,30 @@ fn run_http_client(status: u16, streaming: bool, body_bytes: bool, o: &mut Outco
     Ok(())
 }
 
+/// A status that reaches tonic wrapped in other errors (tower layers box and wrap errors) must come out of
+/// `Status::from_error` unchanged: code, message, details and every metadata entry.
+fn run_from_error(code: i32, message: &str, details: &[u8], mdv: &[MdEntry], depth: u8, o: &mut Outcome) -> Result<(), Failure> {
+    o.label("status_from_error_chain");
+    o.label_if(depth > 0, "status_wrapped_in_other_errors");
+    o.nontrivial = depth > 0 && (!mdv.is_empty() || !details.is_empty());
+    let st = Status::with_details_and_metadata(code_of(code), message.to_string(), Bytes::copy_from_slice(details), md::build_map(mdv));
+    let mut err: Box<dyn std::error::Error + Send + Sync> = Box::new(st);
+    for _ in 0..depth {
+        err = Box::new(Wrap(err));
+    }
+    let got = Status::from_error(err);
+    ensure!(got.code() == code_of(code), "C04/from-error-code", "code {:?} != {:?} (depth {depth})", got.code(), code_of(code));
+    ensure!(got.message() == message, "C04/from-error-message", "message {:?} != {:?}", got.message(), message);
+    ensure!(got.details() == details, "C04/from-error-details", "details differ (depth {depth})");
+    // reserved names are stored as they are in a Status (they are only stripped when written to headers)
+    let have = got.metadata().clone().into_headers();
+    for (name, vals) in md::multimap(mdv) {
+        let g: Vec<Vec<u8>> = have.get_all(name.as_str()).iter().map(|v| v.as_bytes().to_vec()).collect();
+        ensure!(g.len() == vals.len(), "C04/from-error-metadata", "status recovered from an error chain of depth {depth}: key {name:?} has {} values, expected {}", g.len(), vals.len());
+    }
+    Ok(())
+}
+
 #[derive(Debug)]
 struct Wrap(Box<dyn std::error::Error + Send + Sync>);
 impl std::fmt::Display for Wrap {
@@ -445,6 +481,7 @@ pub fn run(c: &Case, o: &mut Outcome) -> Result<(), Failure> {
         Case::HttpStatus { status, trailer_status, empty_data } => run_http(*status, *trailer_status, *empty_data, o),
         Case::H2Reason { reason, how } => run_h2(*reason, *how, o),
         Case::HttpStatusClient { status, streaming, body_bytes } => run_http_client(*status, *streaming, *body_bytes, o),
+        Case::FromError { code, message, details, md, depth } => run_from_error(*code, message, &details.bytes(), md, *depth, o),
     }
 }
 
@@ -459,7 +496,7 @@ impl Prop for C04 {
         run(c, o)
     }
     fn rule() -> &'static str {
-        "proptest over four families. (a) round trip: 17 codes x Unicode messages (controls, %, %41, non-ASCII incl. 4-byte, <=300 chars) x details 0-200 bytes x metadata (ASCII/opaque/-bin, repeated, reserved names) through Status::add_header / into_http and back through from_header_map; produced values judged by independent percent/base64 decoders. (b) totality: arbitrary header maps (malformed grpc-status, broken escapes, invalid UTF-8, bad base64). (c) every HTTP status 100..=599 (enumerated exhaustively) through Streaming::new_response, with and without a grpc-status trailer, against the transcribed table. (d) h2 reasons 0..=13 (exhaustive) and unknown ones through From<h2::Error> / from_error against the transcribed table. Non-trivial: (a) message needs escaping or details length mod 3 != 0 or metadata non-empty; (b) >=1 malformed field; (c) status != 200; (d) all. Distinct = distinct serialised case."
+        "proptest over six families (incl. statuses recovered from error source chains and the HTTP table through a generated client). (a) round trip: 17 codes x Unicode messages (controls, %, %41, non-ASCII incl. 4-byte, <=300 chars) x details 0-200 bytes x metadata (ASCII/opaque/-bin, repeated, reserved names) through Status::add_header / into_http and back through from_header_map; produced values judged by independent percent/base64 decoders. (b) totality: arbitrary header maps (malformed grpc-status, broken escapes, invalid UTF-8, bad base64). (c) every HTTP status 100..=599 (enumerated exhaustively) through Streaming::new_response, with and without a grpc-status trailer, against the transcribed table. (d) h2 reasons 0..=13 (exhaustive) and unknown ones through From<h2::Error> / from_error against the transcribed table. Non-trivial: (a) message needs escaping or details length mod 3 != 0 or metadata non-empty; (b) >=1 malformed field; (c) status != 200; (d) all. Distinct = distinct serialised case."
     }
     fn assumptions() -> Vec<String> {
         vec![
